@@ -8,6 +8,17 @@ sys.path.insert(0, os.path.dirname(os.path.abspath(__file__)))
 import cert  # noqa: E402
 
 
+def capped(violations, prop):
+    """at most 40 violations per property (all of them matter for `prop`, the others are only reported by the dev tools)"""
+    out, count = [], {}
+    for v in violations:
+        k = v["prop"]
+        count[k] = count.get(k, 0) + 1
+        if count[k] <= (200 if k == prop else 40):
+            out.append(v)
+    return out
+
+
 def main():
     req = json.load(sys.stdin)
     prop = req["prop"]
@@ -73,6 +84,9 @@ def main():
                         if any(r.get("max_in_flight", 0) >= 2 for r in runs):
                             tags.add("C10")
                         viol += cert.check_async(u, p, res, runs, st)
+                    if pi == 0 and u.get("cache_probe"):
+                        tags.add("C20")
+                        viol += cert.check_cache(u, o.get("cache"))
                     if pi == 0 and u.get("snapshot"):
                         tags.add("C16")
                         viol += cert.check_snapshot(u, p, res, o.get("snapshot"), st)
@@ -89,7 +103,7 @@ def main():
         "universes": sum(fam_counts.values()), "families": fam_counts, "profiles": [p for p in ("dev", "release") if p in bins],
         "solves": st.solves, "verdicts": st.verdicts, "queries": st.queries, "by_kind": st.by_kind,
         "learnt_clauses": st.learnt_clauses, "graphs": st.graphs, "solver_time": round(st.solver_time, 2),
-        "relevant": len(relevant), "hangs": n_hangs[0], "cvc5_cross_checked": getattr(st, "cvc5_checked", 0), "samples": samples, "violations": violations[:200],
+        "relevant": len(relevant), "hangs": n_hangs[0], "cvc5_cross_checked": getattr(st, "cvc5_checked", 0), "samples": samples, "violations": capped(violations, prop),
     }
     print(json.dumps(out))
 
